@@ -120,8 +120,11 @@ func c05Quiet(n *test.Node) {
 	n.Chain.Logger().SetLevel(log.PanicLevel)
 }
 
-func c05NewEnv(n int) *c05Env {
-	e := &c05Env{n: n, t: &c05T{}, sigs: map[string]common.Signature{}}
+// c05NewEnv builds the chain for n validators. setupErr is set (and the
+// environment unusable for Import) when the block manager refuses to propose
+// on top of block 1 with the complete valid certificate.
+func c05NewEnv(n int) (e *c05Env, setupErr error) {
+	e = &c05Env{n: n, t: &c05T{}, sigs: map[string]common.Signature{}}
 	var vs []string
 	for i := 0; i < n; i++ {
 		w := c05Wallet(byte(0x31 + i))
@@ -176,7 +179,14 @@ func c05NewEnv(n int) *c05Env {
 		all[i] = c05Valid
 	}
 	full := e.build(c05Spec{N: n, Kinds: all})
-	bc := e.node.ProposeBlock(full)
+	var bc module.BlockCandidate
+	var err2, cbErr error
+	if p := ev.Catch(func() { bc, err2, cbErr = test.ProposeBlock(e.node.BM, e.blk1.ID(), full) }); p != "" {
+		return e, fmt.Errorf("panic: %s", p)
+	}
+	if err2 != nil || cbErr != nil || bc == nil {
+		return e, fmt.Errorf("Propose with all %d valid precommits: err=%v cbErr=%v", n, err2, cbErr)
+	}
 	var hb, bb bytes.Buffer
 	if err := bc.MarshalHeader(&hb); err != nil {
 		panic(err)
@@ -190,7 +200,7 @@ func c05NewEnv(n int) *c05Env {
 	if atomic.LoadInt32(&e.t.fails) != 0 {
 		panic("harness: fixture assertion failed during setup")
 	}
-	return e
+	return e, nil
 }
 
 func (e *c05Env) close() {
@@ -666,9 +676,13 @@ func TestVerifC05(t *testing.T) {
 	if ev.Replaying() {
 		var cs c05Case
 		ev.ReplayCase(&cs)
-		e := c05NewEnv(cs.Spec.N)
+		e, serr := c05NewEnv(cs.Spec.N)
 		defer e.close()
-		e.eval(c, cs.Spec, toSet([]string{cs.Point}))
+		if serr != nil {
+			r.Violation("valid-certificate-rejected@Propose(setup)", serr.Error(), cs)
+		} else {
+			e.eval(c, cs.Spec, toSet([]string{cs.Point}))
+		}
 		r.Finish(false)
 		return
 	}
@@ -703,8 +717,16 @@ func TestVerifC05(t *testing.T) {
 	sampled := map[string]bool{}
 	ev.Par(len(plans), len(plans), func(pi int) {
 		pl := plans[pi]
-		e := c05NewEnv(pl.N)
+		e, serr := c05NewEnv(pl.N)
 		defer e.close()
+		if serr != nil {
+			all := make([]int, pl.N)
+			for i := range all {
+				all[i] = c05Valid
+			}
+			c.violation("valid-certificate-rejected@Propose(setup)", serr.Error(), c05Case{c05Spec{N: pl.N, Kinds: all}, c05PPropose})
+			return
+		}
 		pts := toSet(pl.Points)
 		var specs []c05Spec
 		c05Space(pl.N, pl.Full, pl.Perms, pl.Rounds, func(s c05Spec) { specs = append(specs, s) })
